@@ -272,32 +272,57 @@ func c16(c *core.Ctx) {
 		if i == 0 {
 			return
 		}
-		// time: the MEDIAN of 301 fresh parses (a statistic that descheduling and GC pauses on a loaded machine do not
-		// move), before and after three million hits on 100 URIs
+		// time after history, measured so that a loaded machine cannot fake a verdict: descheduling and GC pauses only
+		// ever ADD time, so the MINIMUM over several repetitions of "a long run of hits, then ONE parse of a fresh URI"
+		// is a floor that only the parser itself can raise. (A median over many fresh parses is kept as well: it sees
+		// costs that every call pays, the minimum-of-firsts sees a cost that the first call after the history pays.)
+		fresh := func(tag int) time.Duration {
+			s := fmt.Sprintf("stun:fresh-%d-%d.example:%d", tag, r.U64()%100000000, 1+tag%60000)
+			t0 := time.Now()
+			_, _ = stun.ParseURI(s)
+
+			return time.Since(t0)
+		}
+		minOf := func(n int, f func(k int) time.Duration) time.Duration {
+			best := time.Duration(1 << 62)
+			for k := 0; k < n; k++ {
+				if d := f(k); d < best {
+					best = d
+				}
+			}
+
+			return best
+		}
 		median := func() time.Duration {
 			ds := make([]time.Duration, 301)
 			for k := range ds {
-				s := fmt.Sprintf("stun:fresh-%d.example:%d", r.U64()%100000000, 1+k)
-				t0 := time.Now()
-				_, _ = stun.ParseURI(s)
-				ds[k] = time.Since(t0)
+				ds[k] = fresh(k)
 			}
 			sort.Slice(ds, func(x, y int) bool { return ds[x] < ds[y] })
 
 			return ds[150]
 		}
-		early := median()
-		for k := 0; k < 3000000; k++ {
-			_, _ = stun.ParseURI(hosts[k%100])
+		favourites := hosts[len(hosts)-100:]
+		for _, h := range favourites {
+			_, _ = stun.ParseURI(h)
 		}
-		late := median()
-		c.Max("median_fresh_parse_after_3M_hits_ns", late.Nanoseconds())
-		c.Max("median_fresh_parse_before_ns", early.Nanoseconds())
-		c.Count("hits_before_late_measurement", 3000000)
-		if late > time.Millisecond && late > 100*early {
+		earlyMin, earlyMedian := minOf(7, fresh), median()
+		lateMin := minOf(7, func(k int) time.Duration {
+			for j := 0; j < 400000; j++ {
+				_, _ = stun.ParseURI(favourites[j%100])
+			}
+
+			return fresh(1000 + k)
+		})
+		lateMedian := median()
+		c.Max("first_fresh_parse_after_400k_hits_min_of_7_ns", lateMin.Nanoseconds())
+		c.Max("fresh_parse_min_of_7_before_ns", earlyMin.Nanoseconds())
+		c.Max("median_fresh_parse_after_history_ns", lateMedian.Nanoseconds())
+		c.Count("hits_before_late_measurements", 7*400000)
+		if (lateMin > time.Millisecond && lateMin > 100*earlyMin) || (lateMedian > time.Millisecond && lateMedian > 100*earlyMedian) {
 			c.Violate("time-grows-with-history", "time-grows-with-history", map[string]interface{}{
-				"problem":   "median time of 301 parses of fresh 30-byte URIs after three million parses of 100 other URIs, against the same median before them",
-				"before_ns": early.Nanoseconds(), "after_ns": late.Nanoseconds()})
+				"problem": "parsing a fresh 30-byte URI after a long run of parses of 100 other URIs: minimum over 7 repetitions of the first parse after 400000 hits, and median of 301 parses, against the same before the history",
+				"first_after_hits_min_ns": lateMin.Nanoseconds(), "min_before_ns": earlyMin.Nanoseconds(), "median_after_ns": lateMedian.Nanoseconds(), "median_before_ns": earlyMedian.Nanoseconds()})
 		}
 	})
 	// runs of one byte of every class (incl. UTF-8 continuation and lead bytes, NUL, 0xFF) at lengths around the usual
